@@ -73,7 +73,7 @@ fn run(cfg: &RunCfg, rep: &mut Report) {
         if m.inits.is_empty() {
             continue;
         }
-        search(m, 4, rep, 2);
+        search(m, if cfg.tier == Tier::Thorough { 8 } else { 4 }, rep, 2);
     }
 }
 
